@@ -170,6 +170,57 @@ def install_pool():
             k.record('guard', p.pid, bool(r), round(k.now - t0, 3), completed)
         return r
     _set(P.Worker, '_ensure_messages_consumed', _guard)
+
+    def _error(msg, *args, **kwargs):
+        k = state.K
+        if k is not None and not k.aborting:
+            exc = next((a for a in args if isinstance(a, BaseException)), None)
+            try:
+                text = msg % args
+            except Exception:       # noqa
+                text = str(msg)
+            k.record('pool-error', text[:160], type(exc).__name__ if exc is not None else '')
+    _set(P, 'error', _error)
+    orig_step = BC.restart_state.step
+
+    def _step(self, now=None):
+        k = state.K
+        serial = getattr(self, '_sim_serial', None)
+        if serial is None:
+            serial = self._sim_serial = k.cfg['_rs_serial'] = k.cfg.get('_rs_serial', 0) + 1
+        before = (self.R, self.T)
+        try:
+            r = orig_step(self, now)
+        except BC.RestartFreqExceeded:
+            k.record('rs-step', serial, self.maxR, self.maxT, before[0], before[1], k.now, 'refused')
+            k.probe('restart_limit_hit')
+            raise
+        k.record('rs-step', serial, self.maxR, self.maxT, before[0], before[1], k.now, 'admitted')
+        return r
+    _set(BC.restart_state, 'step', _step)
+    orig_maintain = P.Pool._maintain_pool
+
+    def _maintain(self):
+        k = state.K
+        k.record('pass-begin')
+        begin = k.steps
+        orig_maintain(self)
+        k.record('pass-end')
+        hook = k.cfg.get('_on_pass_end')
+        if hook is not None:
+            hook(self, begin)
+    _set(P.Pool, '_maintain_pool', _maintain)
+    orig_create = P.Pool._create_worker_process
+
+    def _create(self, i):
+        w = orig_create(self, i)
+        state.K.record('worker-registered', w.pid)
+        return w
+    _set(P.Pool, '_create_worker_process', _create)
+
+    def _on_job_ready(self, job, i, obj, inqW_fd):
+        state.K.record('result-consumed', job, i)
+    _set(P.Pool, 'on_job_ready', _on_job_ready)
     _set(BD.DummyProcess, 'start', _dp_start)
     _set(BD.DummyProcess, 'join', _dp_join)
     _set(BD.DummyProcess, 'is_alive', _dp_is_alive)
